@@ -15,6 +15,16 @@ const char* vk_log(void);            // canonical text of the calls recorded sin
 int  vk_stray(void);                 // close() calls so far in this case that hit a descriptor not handed out / already closed
 int  vk_held(void);                  // descriptors handed out by pipe()/F_DUPFD and not closed yet
 int  vk_count_fds(void);             // entries of /proc/self/fd
+// Virtual silence of the child (works whether or not recording is on): for the next `ms` milliseconds of VIRTUAL time no
+// descriptor becomes readable.  A select()/poll() of the calling process that asks for a shorter time-out is answered at
+// once the way Linux answers a time-out (0, all sets cleared / revents 0, the timeval counted down to zero) and the
+// silence shrinks by the time-out asked for; a call whose time-out reaches the end of the silence (or has none) goes to
+// the kernel.  A caller that keeps asking with a zero time-out never gets there: after VK_SPIN_LIMIT such calls in a row
+// the recorder notes a spin and fails the call with EBADF so that the loop ends.
+void vk_pause(long ms);
+int  vk_spun(void);                  // a spin was noted since the last vk_pause (the flag is cleared by vk_pause)
+long vk_timeouts(void);              // time-out answers given since the last vk_pause
+enum { VK_SPIN_LIMIT = 20000 };
 
 #ifdef __cplusplus
 }
